@@ -391,7 +391,13 @@ func errorsFoundAreReported(c *Ctx, rule string, rels ...string) {
 					continue
 				}
 				last := ret.Results[len(ret.Results)-1]
-				if id, ok := ast.Unparen(last).(*ast.Ident); !ok || id.Name != "nil" {
+				// a nil error — or (round 11) another call's error: `return w.Flush()` while the error obtained before
+				// was never looked at tells the caller about the flush only
+				lastIsNil := false
+				if id, ok := ast.Unparen(last).(*ast.Ident); ok && id.Name == "nil" {
+					lastIsNil = true
+				}
+				if _, isCall := ast.Unparen(last).(*ast.CallExpr); !lastIsNil && !isCall {
 					continue
 				}
 				// errors obtained from calls on this path, with the index of the statement that obtained them
@@ -448,6 +454,22 @@ func errorsFoundAreReported(c *Ctx, rule string, rels ...string) {
 							}
 							return true
 						})
+					}
+					ast.Inspect(last, func(m ast.Node) bool {
+						if id, ok := m.(*ast.Ident); ok && info.ObjectOf(id) == g.ob {
+							tested = true
+						}
+						return true
+					})
+					if !tested && !lastIsNil {
+						key := fmt.Sprintf("%s|answers-with-another-error:%s@%s", where, g.ob.Name(), g.call)
+						if !reported[key] {
+							reported[key] = true
+							n++
+							c.viol(rule, key, c.pos(pth.Ret.Pos()),
+								fmt.Sprintf("%s returns %s at %s on a path that obtained %s from %s and never looked at it afterwards: when that call fails and the later one succeeds the caller is told everything succeeded — the failure is lost", fd.Name.Name, types.ExprString(last), c.pos(pth.Ret.Pos()), g.ob.Name(), g.call))
+						}
+						continue
 					}
 					key := fmt.Sprintf("%s|success-without-testing:%s@%s", where, g.ob.Name(), g.call)
 					if !tested && !reported[key] {
